@@ -660,6 +660,9 @@ func ReachAvoiding(fn *ssa.Function, from *ssa.BasicBlock, target *ssa.BasicBloc
 func (c *Ctx) pathString(path []*ssa.BasicBlock) []string {
 	var out []string
 	for _, b := range path {
+		if b == nil {
+			continue
+		}
 		pos := token.NoPos
 		for _, in := range b.Instrs {
 			if in.Pos().IsValid() {
